@@ -874,6 +874,10 @@ def rule_cl_options(cx, rep, port='py'):
         return out
 
     def truth(test, env):
+        if isinstance(test, ast.Compare) and len(test.ops) == 1 and isinstance(test.left, ast.Constant) and isinstance(test.comparators[0], ast.Constant) and isinstance(test.ops[0], (ast.Eq, ast.Is, ast.NotEq, ast.IsNot)):
+            a_, b_ = test.left.value, test.comparators[0].value        # a constant argument substituted for the parameter (inlined helper)
+            eq = (a_ is b_) if (a_ is None or b_ is None or isinstance(a_, bool) or isinstance(b_, bool)) else a_ == b_
+            return eq if isinstance(test.ops[0], (ast.Eq, ast.Is)) else not eq
         if isinstance(test, ast.Compare) and len(test.ops) == 1 and isinstance(test.left, ast.Name) and test.left.id in env and isinstance(test.comparators[0], ast.Constant):
             eq = env[test.left.id] == test.comparators[0].value
             if isinstance(test.ops[0], (ast.Eq, ast.Is)):
@@ -906,8 +910,27 @@ def rule_cl_options(cx, rep, port='py'):
                         if isinstance(x, ast.AST):
                             expr(x)
 
+        def live_nodes(e):
+            # the nodes of e that can be evaluated: a conditional expression whose test is decided by the constant arguments of this
+            # call contributes its test and the live arm only
+            yield e
+            if isinstance(e, ast.IfExp):
+                v = truth(e.test, env)
+                for x in live_nodes(e.test):
+                    yield x
+                if v is not False:
+                    for x in live_nodes(e.body):
+                        yield x
+                if v is not True:
+                    for x in live_nodes(e.orelse):
+                        yield x
+                return
+            for c_ in ast.iter_child_nodes(e):
+                for x in live_nodes(c_):
+                    yield x
+
         def expr(e):
-            for n in ast.walk(e):
+            for n in live_nodes(e):
                 if isinstance(n, ast.Attribute) and isinstance(n.value, ast.Name) and n.value.id == param:
                     (stores if isinstance(n.ctx, ast.Store) else reads).setdefault(n.attr, []).append(n)
                 if isinstance(n, ast.Call) and isinstance(n.func, ast.Name) and n.func.id in funcs:
